@@ -5,15 +5,17 @@
 //	seq <cfg> [@ms] <ev> [@ms] <ev> ...
 //
 // "@ms" tokens are a schedule (sleep until ms after the start of the script); the model ignores
-// them. "W,i,hint" stands for one iteration of spoof loop i: the harness listens for the frame
-// that iteration emits (right after StartHunt: the goroutine's first iteration; after "@ms": the
-// loop's 6 s ticker firing) and records the Ethernet destination it saw as the hint. Every other
-// token is an API call / received packet, and its observation is what the handler wrote to the
+// them. "L,i K,i D,i,mac" stand for one iteration of spoof loop i (lookup, check, write): the two
+// first are invisible, at "D" the harness listens for the write that iteration makes (right after
+// StartHunt: the goroutine's first iteration; after "@ms": the loop's 6 s ticker firing) and records
+// the Ethernet destination it saw. Every other token is an API call / received packet / change of the
+// environment (offer table, failing connection), and its observation is what the handler wrote to the
 // connection during the call. Observation = frames per event, exactly as the model prints them.
 package main
 
 import (
 	"encoding/hex"
+	"errors"
 	"fmt"
 	"net"
 	"net/netip"
@@ -36,38 +38,41 @@ const period = 6000 // ms: ticker period of spoofLoop (spoof.go: time.NewTicker(
 
 type cfg struct {
 	hostMAC, routerMAC net.HardwareAddr
-	routerIP           netip.Addr
+	hostIP, routerIP   netip.Addr
 	lan                netip.Prefix
 }
 
 func (c cfg) tok() string {
 	a := c.lan.Addr().As4()
 	r := c.routerIP.As4()
-	return fmt.Sprintf("c,%s,%s,%s,%s,%d", hex.EncodeToString(c.hostMAC), hex.EncodeToString(c.routerMAC),
+	hi := c.hostIP.As4()
+	return fmt.Sprintf("c,%s,%s,%s,%s,%s,%d", hex.EncodeToString(c.hostMAC), hex.EncodeToString(hi[:]), hex.EncodeToString(c.routerMAC),
 		hex.EncodeToString(r[:]), hex.EncodeToString(a[:]), c.lan.Bits())
 }
 
 func parseCfg(t string) (c cfg, ok bool) {
 	f := strings.Split(t, ",")
-	if len(f) != 6 || f[0] != "c" {
+	if len(f) != 7 || f[0] != "c" {
 		return c, false
 	}
 	hm, e1 := hex.DecodeString(f[1])
-	rm, e2 := hex.DecodeString(f[2])
-	ri, e3 := hex.DecodeString(f[3])
-	la, e4 := hex.DecodeString(f[4])
-	bits, e5 := strconv.Atoi(f[5])
-	if e1 != nil || e2 != nil || e3 != nil || e4 != nil || e5 != nil || len(hm) != 6 || len(rm) != 6 || len(ri) != 4 || len(la) != 4 {
+	hi, e0 := hex.DecodeString(f[2])
+	rm, e2 := hex.DecodeString(f[3])
+	ri, e3 := hex.DecodeString(f[4])
+	la, e4 := hex.DecodeString(f[5])
+	bits, e5 := strconv.Atoi(f[6])
+	if e0 != nil || e1 != nil || e2 != nil || e3 != nil || e4 != nil || e5 != nil || len(hm) != 6 || len(rm) != 6 || len(ri) != 4 || len(la) != 4 || len(hi) != 4 {
 		return c, false
 	}
 	c.hostMAC, c.routerMAC = hm, rm
+	c.hostIP = netip.AddrFrom4(*(*[4]byte)(hi))
 	c.routerIP = netip.AddrFrom4(*(*[4]byte)(ri))
 	c.lan = netip.PrefixFrom(netip.AddrFrom4(*(*[4]byte)(la)), bits)
 	return c, true
 }
 
 func stdCfg() cfg {
-	return cfg{hostMAC: lib.HostMAC, routerMAC: lib.RouterMAC, routerIP: lib.RouterIP4, lan: lib.HomeLAN}
+	return cfg{hostMAC: lib.HostMAC, routerMAC: lib.RouterMAC, hostIP: lib.HostIP4, routerIP: lib.RouterIP4, lan: lib.HomeLAN}
 }
 
 // other NIC configurations: the router address stays 192.168.0.11 (the generators aim at it); the home LAN
@@ -81,8 +86,12 @@ func altCfgs() []cfg {
 	c5 := mk("192.168.0.0/24")
 	c5.hostMAC = net.HardwareAddr{0x02, 0xaa, 0, 0, 0, 0x01}
 	c5.routerMAC = net.HardwareAddr{0x02, 0xbb, 0, 0, 0, 0x02}
+	c6 := mk("192.168.0.128/29") // the host's own address inside a small LAN
+	c7 := mk("192.168.0.8/29")   // the router's address inside a small LAN
+	c8 := mk("192.168.0.0/24")
+	c8.hostIP = netip.MustParseAddr("192.168.0.4") // host address = one of the universe's addresses
 	return []cfg{mk("192.168.0.0/25"), mk("192.168.0.0/16"), mk("192.168.0.0/30"), mk("192.168.0.2/32"),
-		mk("10.0.0.0/8"), mk("128.0.0.0/1"), netipZeroBits(), c5}
+		mk("10.0.0.0/8"), mk("128.0.0.0/1"), netipZeroBits(), c5, c6, c7, c8, mk("192.168.0.0/28")}
 }
 
 func netipZeroBits() cfg {
@@ -91,14 +100,50 @@ func netipZeroBits() cfg {
 	return c
 }
 
-func (c cfg) session() (*packet.Session, *lib.RecConn) {
-	return lib.NewSessionWith(&packet.NICInfo{
+// failConn is the recording connection with a switch: the next failN writes are refused with an error
+// (not a net.Error: "not temporary"). Every WriteTo call counts as an attempt.
+type failConn struct {
+	*lib.RecConn
+	mu       sync.Mutex
+	failN    int
+	attempts int
+}
+
+func (c *failConn) WriteTo(b []byte, a net.Addr) (int, error) {
+	c.mu.Lock()
+	c.attempts++
+	fail := c.failN > 0
+	if fail {
+		c.failN--
+	}
+	c.mu.Unlock()
+	if fail {
+		return 0, errors.New("injected write error")
+	}
+	return c.RecConn.WriteTo(b, a)
+}
+func (c *failConn) SetFail(k int) { c.mu.Lock(); c.failN = k; c.mu.Unlock() }
+func (c *failConn) Attempts() int {
+	c.mu.Lock()
+	defer c.mu.Unlock()
+	return c.attempts
+}
+
+func (c cfg) session() (*packet.Session, *failConn) {
+	packet.VerifSetMonitorNICFrequency(24 * time.Hour)
+	conn := &failConn{RecConn: lib.NewRecConn()}
+	s, err := packet.Config{Conn: conn, NICInfo: &packet.NICInfo{
 		HomeLAN4:    c.lan,
-		HostAddr4:   packet.Addr{MAC: c.hostMAC, IP: lib.HostIP4},
+		HostAddr4:   packet.Addr{MAC: c.hostMAC, IP: c.hostIP},
 		RouterAddr4: packet.Addr{MAC: c.routerMAC, IP: c.routerIP},
 		HostLLA:     netip.PrefixFrom(lib.HostLLA, 64),
 		RouterLLA:   netip.PrefixFrom(lib.RouterLLA, 64),
-	})
+	}, ProbeDeadline: packet.DefaultProbeDeadline, OfflineDeadline: packet.DefaultOfflineDeadline,
+		PurgeDeadline: packet.DefaultPurgeDeadline}.NewSession("")
+	if err != nil {
+		panic(err)
+	}
+	return s, conn
 }
 
 // ---------------------------------------------------------------- frames -> text
@@ -152,10 +197,10 @@ type result struct {
 	dur        time.Duration
 }
 
-// waitFrame polls until the connection holds a frame or the deadline passes.
-func waitFrame(conn *lib.RecConn, max time.Duration) {
+// waitAttempt polls until the handler has called WriteTo again (successfully or not) or the deadline passes.
+func waitAttempt(conn *failConn, seen int, max time.Duration) {
 	deadline := time.Now().Add(max)
-	for conn.Len() == 0 && time.Now().Before(deadline) {
+	for conn.Attempts() == seen && time.Now().Before(deadline) {
 		time.Sleep(50 * time.Microsecond)
 	}
 }
@@ -224,7 +269,8 @@ func execScript(args []string) (res result) {
 	toks := []string{args[0]}
 	var lastAt time.Duration = -1 // schedule time of the most recent @ token not yet consumed by a W
 	nInvalid := 0
-	take := func() [][]byte { return conn.Take() }
+	seenAttempts := 0
+	take := func() [][]byte { seenAttempts = conn.Attempts(); return conn.Take() }
 	// The session's offer table is the handler's environment: it changes by SetDHCPv4IPOffer but also
 	// when Parse moves an IP between MACs and drops a MAC entry. Whatever changed is reported to the
 	// model as an explicit "O" event before the handler runs.
@@ -275,7 +321,7 @@ func execScript(args []string) (res result) {
 		switch f[0] {
 		case "S":
 			h.StartHunt(packet.Addr{MAC: mac6(f[1]), IP: ip4(f[2])})
-			// what the new goroutine emits belongs to the W token that follows; nothing is taken here
+			// what the new goroutine emits belongs to the D token that follows; nothing is taken here
 			obs = append(obs, "-")
 			toks = append(toks, t)
 		case "SI":
@@ -318,17 +364,22 @@ func execScript(args []string) (res result) {
 				obs = append(obs, showOut(take()))
 			}
 			toks = append(toks, t)
-		case "W":
-			// one loop iteration: its frame (if any) shows up by itself
+		case "L", "K":
+			// lookup and check of a loop iteration: nothing to see; the write is the "D" token
+			obs = append(obs, "-")
+			toks = append(toks, t)
+		case "D":
+			// the write of one loop iteration shows up by itself
 			if closed {
 				time.Sleep(2 * time.Millisecond)
 			} else if lastAt >= 0 {
-				waitFrame(conn, 450*time.Millisecond) // ticker wake-up: listen from 150 ms before to 300 ms after the tick
+				waitAttempt(conn, seenAttempts, 450*time.Millisecond) // ticker wake-up: listen from 150 ms before to 300 ms after the tick
 				time.Sleep(2 * time.Millisecond)
 			} else {
-				waitFrame(conn, 3*time.Second) // first iteration of a new goroutine: immediate unless the machine stalls
+				waitAttempt(conn, seenAttempts, 3*time.Second) // first iteration of a new goroutine: immediate unless the machine stalls
 				time.Sleep(2 * time.Millisecond)
 			}
+			seenAttempts = conn.Attempts()
 			fs, ts := conn.TakeTimed()
 			if lastAt >= 0 && len(fs) > 0 {
 				// ticker wake-up scheduled 150 ms after the @ token: the frame must not come early
@@ -343,11 +394,67 @@ func execScript(args []string) (res result) {
 				hint = hex.EncodeToString(fs[0][0:6])
 			}
 			obs = append(obs, showOut(fs))
-			toks = append(toks, "W,"+f[1]+","+hint)
+			toks = append(toks, "D,"+f[1]+","+hint)
+		case "F":
+			k, _ := strconv.Atoi(f[1])
+			conn.SetFail(k)
+			obs = append(obs, showOut(take()))
+			toks = append(toks, t)
+		case "X":
+			et, _ := strconv.ParseUint(f[1], 16, 16)
+			b := lib.MkEther(packet.EthernetBroadcast, mac6(macs[0]), uint16(et), lib.UnHex(f[2]))
+			frame, _ := session.Parse(b) // whatever Parse hands over, error or not, goes to the handler
+			syncOffers()
+			if p, _ := lib.Catch(func() { h.ProcessPacket(frame) }); p {
+				obs = append(obs, "panic")
+				take()
+			} else {
+				obs = append(obs, showOut(take()))
+			}
+			toks = append(toks, t)
+		case "AR":
+			h.Request(ip4(f[1]))
+			obs = append(obs, showOut(take()))
+			toks = append(toks, t)
+		case "AT":
+			h.RequestTo(mac6(f[1]), ip4(f[2]))
+			obs = append(obs, showOut(take()))
+			toks = append(toks, t)
+		case "AP":
+			h.Probe(ip4(f[1]))
+			obs = append(obs, showOut(take()))
+			toks = append(toks, t)
+		case "AA":
+			h.AnnounceTo(mac6(f[1]), ip4(f[2]))
+			obs = append(obs, showOut(take()))
+			toks = append(toks, t)
+		case "AW":
+			h.RequestRaw(mac6(f[1]), packet.Addr{MAC: mac6(f[2]), IP: ip4(f[3])}, packet.Addr{MAC: mac6(f[4]), IP: ip4(f[5])})
+			obs = append(obs, showOut(take()))
+			toks = append(toks, t)
+		case "AY":
+			h.Reply(mac6(f[1]), packet.Addr{MAC: mac6(f[2]), IP: ip4(f[3])}, packet.Addr{MAC: mac6(f[4]), IP: ip4(f[5])})
+			obs = append(obs, showOut(take()))
+			toks = append(toks, t)
+		case "AS":
+			h.Scan()
+			obs = append(obs, showOut(take()))
+			toks = append(toks, t)
+		case "AH":
+			// tries = how often FindIP failed = how many writes WhoIs attempted (a refused write ends it:
+			// then the model is told one more try than it needs, which it ignores)
+			before := conn.Attempts()
+			_, err := h.WhoIs(ip4(f[1]))
+			tries := conn.Attempts() - before
+			if err != nil && err != packet.ErrNotFound {
+				tries = 3
+			}
+			obs = append(obs, showOut(take()))
+			toks = append(toks, "AH,"+f[1]+","+strconv.Itoa(tries))
 		default:
 			return result{toks: args, obs: "badargs"}
 		}
-		if f[0] != "W" {
+		if f[0] != "D" && f[0] != "L" && f[0] != "K" {
 			lastAt = -1
 		}
 	}
@@ -441,6 +548,61 @@ func genRx(rng *lib.Rand) string {
 	return "R," + op + "," + eth + "," + m + "," + sip + "," + tmac + "," + tip
 }
 
+// a raw frame for ProcessPacket: any EtherType, ARP payloads valid / truncated / padded / with a bad header field
+func genRaw(rng *lib.Rand) string {
+	m := mac6(pick(rng, macs))
+	arp := lib.MkARP(uint16(rng.Pick(1, 1, 1, 2, 0, 3)), m, ip4(pick(rng, anyIPs)), mac6("000000000000"), ip4(pick(rng, []string{ipRouter, ipRouter, ipA, ipB, ipZero})))
+	if rng.Chance(40) {
+		copy(arp[14:18], []byte{0, 0, 0, 0}) // probe
+	}
+	et := "0806"
+	switch k := rng.Intn(100); {
+	case k < 25: // valid, exact length
+	case k < 40: // valid, padded as on the wire
+		arp = append(arp, make([]byte, rng.Pick(1, 18, 32))...)
+	case k < 60: // truncated at any offset
+		arp = arp[:rng.Intn(28)]
+	case k < 80: // one header field off
+		i := rng.Intn(6)
+		arp[i] ^= byte(1 + rng.Intn(255))
+	case k < 90: // not ARP at all
+		et = pick(rng, []string{"0800", "86dd", "88cc", "0805", "0807", "0600", "05dc", "0000", "ffff"})
+		if rng.Bool() {
+			arp = rng.Bytes(rng.Intn(60))
+		}
+	default:
+		arp = rng.Bytes(rng.Pick(0, 1, 27, 28, 29, 46))
+	}
+	return "X," + et + "," + lib.Hex(arp)
+}
+
+// a call of the public send API
+func genAPI(rng *lib.Rand) string {
+	ip := pick(rng, []string{ipA, ipB, ipRouter, ipRouter, ipHost, ipZero, ipOff, ipBcast})
+	dst := pick(rng, append([]string{"ffffffffffff"}, macs...))
+	sm := pick(rng, []string{"005555555555", "005555555555", "006666666666", macs[0]})
+	si := pick(rng, []string{ipRouter, ipRouter, ipHost, ipA, ipZero})
+	tm := pick(rng, []string{"ffffffffffff", "000000000000", macs[1]})
+	switch rng.Intn(8) {
+	case 0:
+		return "AR," + ip
+	case 1:
+		return "AT," + dst + "," + ip
+	case 2:
+		return "AP," + ip
+	case 3:
+		return "AA," + dst + "," + ip
+	case 4:
+		return "AW," + dst + "," + sm + "," + si + "," + tm + "," + ip
+	case 5:
+		return "AY," + dst + "," + sm + "," + si + "," + tm + "," + ip
+	case 6:
+		return "AH," + pick(rng, []string{ipA, ipB, ipC, ipOff}) + ",0"
+	default:
+		return "AR," + ip
+	}
+}
+
 // random call sequence without schedule: only immediate effects are visible (the 6 s tickers never fire)
 func genImmediate(rng *lib.Rand, n int) []string {
 	toks := []string{}
@@ -471,6 +633,12 @@ func genImmediate(rng *lib.Rand, n int) []string {
 			toks = append(toks, "C")
 		case k < 52:
 			toks = append(toks, "SI")
+		case k < 56:
+			toks = append(toks, "F,"+strconv.Itoa(rng.Pick(0, 0, 1, 1, 2, 3)))
+		case k < 64:
+			toks = append(toks, genRaw(rng))
+		case k < 72:
+			toks = append(toks, genAPI(rng))
 		default:
 			toks = append(toks, genRx(rng))
 		}
@@ -526,7 +694,22 @@ func genExhaustive(depth int, emit func([]string)) {
 }
 
 // runCase executes a script and records it (tokens with the observed hints, "@" tokens kept).
+// expandW replaces the generators' shorthand "W,i,x" (one loop iteration) by its three events.
+func expandW(script []string) []string {
+	var out []string
+	for _, t := range script {
+		if strings.HasPrefix(t, "W,") {
+			f := strings.Split(t, ",")
+			out = append(out, "L,"+f[1], "K,"+f[1], "D,"+f[1]+",000000000000")
+		} else {
+			out = append(out, t)
+		}
+	}
+	return out
+}
+
 func runCase(r *lib.Run, script []string, tries int) result {
+	script = expandW(script)
 	var res result
 	for i := 0; i < tries; i++ {
 		res = execScript(script)
@@ -633,6 +816,8 @@ func genTimed(rng *lib.Rand, cycles int, flavour int) []string {
 		for k := 0; k < ncalls && t < base+5400; k++ {
 			var tok []string
 			switch q := rng.Intn(100); {
+			case q >= 50 && q < 64 && flavour == 3:
+				tok = []string{"F," + strconv.Itoa(rng.Pick(0, 1, 1, 2))}
 			case q < 35 && len(hunted) > 0:
 				ks := sortedKeys(hunted)
 				m := ks[rng.Intn(len(ks))]
@@ -646,6 +831,11 @@ func genTimed(rng *lib.Rand, cycles int, flavour int) []string {
 				tok = []string{"S," + x + "," + hunted[x]}
 			case q < 60:
 				tok = []string{"O," + pick(rng, macs) + "," + pick(rng, []string{ipA, ipB, ipRouter, "-"})}
+			case q < 72:
+				tok = []string{genAPI(rng)}
+				if strings.HasPrefix(tok[0], "AH") {
+					tok = []string{"AR," + ipA} // WhoIs sleeps up to 300 ms: keep it out of the schedule
+				}
 			case q < 63 && flavour == 2 && closedAt < 0:
 				tok = []string{"C"}
 				for i := range loops {
@@ -693,6 +883,17 @@ func directed() [][]string {
 		{"C", "S," + m1 + "," + ipA, "W,0,0", "T," + m1, "S," + m1 + "," + ipA, "W,1,0"},
 		// invalid StartHunt
 		{"SI", "SI", "SI", "SI", who(m1, ipA)},
+		// public send API: ordinary calls, and the caller's own forgery (AnnounceTo / RequestRaw / Reply with our MAC + router IP)
+		{"AR," + ipA, "AT," + m1 + "," + ipB, "AP," + ipA, "AA," + m1 + "," + ipA, "AA," + m2 + "," + ipRouter,
+			"AW," + m2 + ",005555555555," + ipRouter + ",ffffffffffff," + ipRouter, "AY," + m2 + ",005555555555," + ipRouter + "," + m2 + "," + ipB,
+			"AW," + m2 + ",006666666666," + ipRouter + ",006666666666," + ipRouter, "AH," + ipA + ",0", who(m3, ipC), "AH," + ipC + ",0"},
+		// API calls still send after Close (the caller's call); the handler itself is silent
+		{"S," + m1 + "," + ipA, "W,0,0", "C", "W,0,0", "AR," + ipA, "AA," + m1 + "," + ipRouter, who(m1, ipA)},
+		// refused writes: first announcement, spoof reply, probe reject, API
+		{"F,1", "S," + m1 + "," + ipA, "W,0,0", who(m1, ipA), "F,2", who(m1, ipA), "AR," + ipA, "AR," + ipA, "O," + m3 + "," + ipA, "F,1", probe(m3, ipB), probe(m3, ipB)},
+		// raw frames: not ARP, truncated, bad header, padded valid request from a hunted MAC
+		{"S," + m1 + "," + ipA, "W,0,0", "X,0800,4500001400000000", "X,0806,-", "X,0806,000108000604", "X,0806,0001080006040001020000000001c0a80002000000000000c0a800",
+			"X,0806,0002080006040001020000000001c0a80002000000000000c0a8000b", "X,0806,0001080006040001020000000001c0a80002000000000000c0a8000b000000000000000000000000000000000000"},
 	}
 }
 
@@ -707,6 +908,9 @@ func directedTimed() [][]string {
 			"@11850", "W,0,0", "@12850", "W,1,0"},
 		{"@0", "S," + m1 + "," + ipA, "W,0,0", "@500", "S," + m2 + "," + ipA, "W,1,0", "@3800", "T," + m1, "@4000", who(m1, ipA),
 			"@5850", "W,0,0", "@6350", "W,1,0", "@9800", "T," + m2, "@11850", "W,0,0", "@12350", "W,1,0"},
+		// K4: the announcement of the tick at 6 s is refused; the loop must still spoof at 12 s and restore after StopHunt
+		{"@0", "S," + m1 + "," + ipA, "W,0,0", "@3800", "F,1", "@5850", "W,0,0", "@7000", "F,0", "@11850", "W,0,0",
+			"@15800", "T," + m1, "@17850", "W,0,0", "@18400", "S," + m1 + "," + ipA, "W,1,0"},
 		{"@0", "S," + m1 + "," + ipA, "W,0,0", "@3800", "T," + m1, "@4000", "S," + m1 + "," + ipA, "W,1,0",
 			"@5850", "W,0,0", "@9800", "T," + m1, "@9850", "W,1,0", "@11850", "W,0,0", "@12000", "W,1,0"},
 	}
@@ -758,7 +962,7 @@ func main() {
 		nTimed, cycles = 120, 5
 	}
 	for i := 0; i < nTimed; i++ {
-		script := append([]string{std}, genTimed(rng.Fork(), cycles, i%3)...)
+		script := append([]string{std}, genTimed(rng.Fork(), cycles, i%4)...)
 		wg.Add(1)
 		go func(script []string) {
 			defer wg.Done()
@@ -843,7 +1047,16 @@ func main() {
 		if i%4 == 3 {
 			ct = alts[(i/4)%len(alts)].tok()
 		}
-		jobs <- append([]string{ct}, genImmediate(rng.Fork(), n)...)
+		script := genImmediate(rng.Fork(), n)
+		if cc, ok := parseCfg(ct); ok && cc.lan.Bits() >= 28 {
+			// Scan walks the whole LAN with 8 ms between requests: only on small ones
+			at := rng.Intn(len(script) + 1)
+			for at < len(script) && strings.HasPrefix(script[at], "W,") {
+				at++ // not between a StartHunt and the first iteration of its loop
+			}
+			script = append(script[:at:at], append([]string{"AS"}, script[at:]...)...)
+		}
+		jobs <- append([]string{ct}, script...)
 	}
 	if r.Thorough() {
 		genExhaustive(4, func(toks []string) { jobs <- append([]string{std}, toks...) })
